@@ -547,4 +547,35 @@ func coldBurst(c *core.Ctx) {
 	}
 	c.Eval(G * 10 * (len(srcs) + 1))
 	c.Count("cold_start_concurrent_calls", G*10*(len(srcs)+1))
+	// the first error pages of the process - built-in, debug off, no custom page - are written concurrently too
+	textwire.VerifResetConfig()
+	tpl, err := textwire.NewTemplate(&config.Config{TemplateDir: "conc", TemplateExt: ".tw"})
+	if err != nil || tpl == nil {
+		return
+	}
+	bodies := make([]string, G)
+	var wg2 sync.WaitGroup
+	start2 := make(chan struct{})
+	for g := 0; g < G; g++ {
+		wg2.Add(1)
+		go func(g int) {
+			defer wg2.Done()
+			<-start2
+			for n := 0; n < 5; n++ {
+				rec := newRecorder()
+				e := tpl.Response(rec, []string{"bad", "bad2", "nope"}[(g+n)%3], data(g))
+				bodies[g] = fmt.Sprintf("%s|%v", rec.body.String(), e != nil)
+			}
+		}(g)
+	}
+	close(start2)
+	wg2.Wait()
+	for g := 0; g < G; g++ {
+		rec := newRecorder()
+		e := tpl.Response(rec, []string{"bad", "bad2", "nope"}[(g+4)%3], data(g))
+		if want := fmt.Sprintf("%s|%v", rec.body.String(), e != nil); bodies[g] != want {
+			c.Violation("concurrent:cold-start", fmt.Sprintf("one of the first concurrent failing Responses of the process wrote %s, alone %s", clipS(bodies[g], 300), clipS(want, 300)), nil)
+		}
+	}
+	c.Eval(G * 5)
 }
